@@ -23,7 +23,7 @@ func TestVerif(t *testing.T) {
 		ID:    "C16",
 		Level: "model_checking",
 		Rule: "auth.Client over an in-process transport hosting two registries (a.example, b.example) and their token realms (one on the registry's own host, one on a foreign host), each with distinct recognisable secrets. " +
-			"sequential: every request sequence of length <= 3 (thorough 4) over {registry A|B} x {scope hint r1:pull | r2:pull,push | none}, for every pair of per-registry auth modes {Basic, Bearer distribution, Bearer OAuth2 refresh token, Bearer OAuth2 password+ForceAttemptOAuth2, access token}, " +
+			"sequential: every request sequence of length <= 3 (thorough 4) over {registry A|B} x {scope hint r1:pull | r2:pull,push | none} plus a request that registry A redirects to registry B, for every pair of per-registry auth modes {Basic, Bearer distribution, Bearer OAuth2 refresh token, Bearer OAuth2 password+ForceAttemptOAuth2, access token}, " +
 			"every cache flavour {none, shared, single-context}, a scheme change of registry A after request {never,1,2}, and 3 renderings of the challenge scope string (order / duplication / wildcard action). " +
 			"concurrent: 2-3 goroutines through one cache (same host and scope, same host different scopes, different hosts, first caller cancelled during the token fetch) under every schedule within D<=2. " +
 			"Oracle at the innermost transport: every outgoing request is scanned (headers, query, body) for every secret of the other registry; passwords/refresh tokens only to the registry that challenged Basic or to the realm that registry advertised; " +
@@ -209,6 +209,11 @@ func (w *world) RoundTrip(req *http.Request) (*http.Response, error) {
 	if r.mode != "basic" && (strings.Contains(hay, r.pass) || strings.Contains(hay, r.refresh)) {
 		w.fails = append(w.fails, fmt.Sprintf("leak: password/refresh token of %s sent to the registry itself although it never asked for Basic", owner))
 	}
+	if owner == "a.example" && strings.HasPrefix(req.URL.Path, "/v2/rd/") {
+		// registry A hands this repository over to registry B (e.g. a mirror): a cross-host redirect
+		w.log = append(w.log, fmt.Sprintf("%s a.example%s -> 307 b.example auth=%q", req.Header.Get("X-Verif-Req"), req.URL.Path, trunc(req.Header.Get("Authorization"))))
+		return resp(req, 307, http.Header{"Location": {"https://b.example" + req.URL.Path}}, ""), nil
+	}
 	id := req.Header.Get("X-Verif-Req")
 	w.sends[id]++
 	authz := req.Header.Get("Authorization")
@@ -223,6 +228,9 @@ func (w *world) RoundTrip(req *http.Request) (*http.Response, error) {
 	default:
 		if strings.HasPrefix(authz, "Bearer ") {
 			tok := strings.TrimPrefix(authz, "Bearer ")
+			if tok == base64.StdEncoding.EncodeToString([]byte(r.user+":"+r.pass)) {
+				w.fails = append(w.fails, "a token cached under the Basic scheme was attached under the Bearer scheme")
+			}
 			if r.mode == "access" && tok == r.token {
 				return resp(req, 200, nil, "ok"), nil
 			}
@@ -318,7 +326,8 @@ type reqKind struct {
 	repo string // "" = no scope hint
 }
 
-var reqKinds = []reqKind{{"a.example", "r1"}, {"a.example", "r2"}, {"a.example", ""}, {"b.example", "r1"}, {"b.example", "r2"}, {"b.example", ""}}
+// the last kind asks registry A for repository "rd", which A answers with a redirect to registry B
+var reqKinds = []reqKind{{"a.example", "r1"}, {"a.example", "r2"}, {"a.example", ""}, {"b.example", "r1"}, {"b.example", "r2"}, {"b.example", ""}, {"a.example", "rd"}}
 
 func doReq(ctx context.Context, c *auth.Client, id string, k reqKind) (*http.Response, error) {
 	repo := k.repo
@@ -383,6 +392,21 @@ func seq(c *driver.Ctx, ma, mb, cache string, depth int) (func(), func(*vs.Resul
 			}
 			id := fmt.Sprintf("q%d", i)
 			hist = append(hist, fmt.Sprintf("%s GET %s scope-hint=%q", id, k.host, k.repo))
+			if k.repo == "rd" {
+				// Redirected request: judged by the leak oracle only (A's credentials are not B's, so the
+				// answer may be 401). Generated only when B challenges with Basic: a Bearer challenge arriving
+				// through a redirect names B's realm as if A had advertised it, which the statement does not cover.
+				if mb == "basic" {
+					if rs, err := doReq(context.Background(), cl, id, k); err == nil {
+						rs.Body.Close()
+					}
+					if len(w.fails) > 0 {
+						fail = &driver.Fail{Sig: sig(w.fails[0]), Detail: detail(w, hist) + "\n" + strings.Join(w.fails, "\n")}
+						return
+					}
+				}
+				continue
+			}
 			before := w.fetches
 			rs, err := doReq(context.Background(), cl, id, k)
 			if err != nil {
@@ -428,6 +452,8 @@ func sig(f string) string {
 		return "a secret of one registry was sent to another host"
 	case strings.HasPrefix(f, "leak: password"):
 		return "password or refresh token sent to a registry that did not challenge with Basic"
+	case strings.HasPrefix(f, "a token cached under the Basic"):
+		return "a cached token was reused under another scheme"
 	case strings.HasPrefix(f, "a bearer token issued"):
 		return "a bearer token was attached to a request for another host"
 	}
